@@ -813,7 +813,9 @@ def _oracle_hist(inp, obs):
             return "merging from the directive failed: %s %s" % (obs["merge_error"], obs.get("detail", ""))
         if obs["problem"]:
             return "merge from directive differs from merge from branch: %s" % obs["problem"]
-        if not obs["same_fields"]:
+        # format 1 (MergeDirective) is outside the codec clause: e.g. an empty diff b"" has no lines and is
+        # read back as "no patch"
+        if inp["mode"].startswith("2") and not obs["same_fields"]:
             return "directive fields changed by to_lines/from_lines: %r" % (obs["fields"],)
         want = "verified" if (inp["mode"].startswith("2") and "patch" in inp["mode"]) else "inapplicable"
         if obs["verified"] != want:
